@@ -229,7 +229,8 @@ class FileProvider(ContentProvider):
                 raise BlacklistedSpec()
 
         resolved = os.path.realpath(self.path)
-        if not resolved.startswith(os.path.realpath(self.root)):
+        real_root = os.path.realpath(self.root)
+        if resolved != real_root and not resolved.startswith(real_root.rstrip(os.sep) + os.sep):
             msg = "Relative path points outside the root: %s -> %s."
             raise Exception(msg % (self.path, resolved))
 
